@@ -69,7 +69,7 @@ def _junk(gate: str, r, perf_on: bool) -> Dict[str, Any]:
         out = {"enabled": False}
         for k, vals in (("coactivation_threshold", [0.0, 0.5]), ("observe_top_k", [1, 64]), ("pair_cap_per_obs", [0, 5]),
                         ("update", [{"mode": "proportional", "alpha": 0.9}, {"mode": "additive", "alpha": 0.5, "clamp_min": -0.2, "clamp_max": 0.2}]),
-                        ("decay", [{"half_life_turns": 1, "floor": 0.1}, {"half_life_turns": 3}]),
+                        ("decay", [{"half_life_turns": 1, "floor": 0.1}, {"half_life_turns": 3}, {"half_life_turns": 2, "floor": 0.9}]),
                         ("merge", [{"enabled": True, "min_size": 2, "min_avg_w": 0.0}]), ("split", [{"enabled": True, "weak_edge_thresh": 0.0}]),
                         ("promotion", [{"enabled": True, "label_mode": "concat_k", "attach_weight": 1.0}])):
             if r.chance(0.6):
@@ -163,8 +163,6 @@ def generate(seed: int, tier: str) -> Dict[str, Any]:
     # the OTHER optional features may be switched on in the base (both arms): a closed gate must be inert also next to an
     # open one (a value in the closed subtree read by the open feature is exactly such an interaction)
     on = [g for g in ("graph", "hybrid", "quality", "scheduler", "reflection") if g not in gates and r.chance(0.3)]
-    if "hybrid" in on and "graph" in gates:
-        on.remove("hybrid")
     if "graph" in on or "hybrid" in on:
         if "graph" not in gates:
             base["graph"] = {"enabled": True, "coactivation_threshold": 0.0, "observe_top_k": r.choice([3, 64]),
